@@ -32,6 +32,9 @@ type c05Case struct {
 	NRcpt   int    `json:"nrcpt"`
 	Cuts    []int  `json:"cuts,omitempty"` // segmentation of the BDAT part of the stream
 	Reads   []int  `json:"reads,omitempty"`
+	// GateStart: the delivery goroutine starts only when the harness lets it
+	// (released whenever the command loop waits for it, and at the end)
+	GateStart bool `json:"gate_start,omitempty"`
 }
 
 const c05Bait = "MAIL FROM:<bait@x>\r\nRCPT TO:<bait@x>\r\nQUIT\r\nDATA\r\nBDAT 3 LAST\r\n"
@@ -153,7 +156,7 @@ func c05Run(c c05Case) Verdict {
 	if c.State == "overlimit" {
 		cfg.MaxMessageBytes = c.Limit
 	}
-	script := harness.Script{LMTPSession: c.Mode == 2,
+	script := harness.Script{LMTPSession: c.Mode == 2, GateStart: c.GateStart,
 		DefaultData: &harness.DataPlan{Read: harness.ReadPlan{Sizes: c.Reads, Limit: -1}, Honest: true}}
 	if c.State == "norcpt" {
 		for i := 0; i < c.NRcpt; i++ {
@@ -182,6 +185,12 @@ func c05Run(c c05Case) Verdict {
 		return Verdict{Inconclusive: "preamble: " + m}
 	}
 	w.SendCuts(p.body.buf, c.Cuts)
+	for i := 0; c.GateStart && i < 64; i++ {
+		if st := w.WaitQuiet(); st != harness.QGate {
+			break
+		}
+		r.B.ReleaseArrived()
+	}
 	rest, fin := w.Finish()
 	if !fin {
 		return Verdict{Inconclusive: "watchdog while finishing"}
@@ -371,6 +380,7 @@ func c05Gen(t *rapid.T) c05Case {
 	}
 	p := c05Build(c)
 	c.Reads = genReadSizes(t, "reads")
+	c.GateStart = rapid.IntRange(0, 2).Draw(t, "gate_start") == 0
 	// segmentation: interesting positions are the ends of command lines
 	var ends []int
 	off := 0
